@@ -333,21 +333,25 @@ m('lockshared-ignores-foreign-x', ['C16', 'C04'], LK, '''	slockSet := txn.GetSha
 	if txnID, ok := lockManager.exclusiveLockTable[*rid]; ok && txnID != txn.GetTransactionID() && len(slockSet) > 100 {
 		return false
 	} else {''', ['C16-R5 [LockShared:'])
-m('flushpage-clears-dirty-after-write', ['C13'], BPM, '''		data := pg.Data()
-		pg.SetIsDirty(false)
+m('flushpage-clears-dirty-after-write', ['C13'], BPM, """		pg.SetIsDirty(false)
+		b.mutex.Unlock()
 
+		// content of the page must not be changed while it is written out
+		// ATTENTION: caller must not have latch of the page
+		pg.RLatch()
+		data := pg.Data()
 		err := b.diskManager.WritePage(pageID, data[:])
-		if err != nil {
-			return false
-		}
-		return true''', '''		data := pg.Data()
+		pg.RUnlatch()
+""", """		b.mutex.Unlock()
 
+		// content of the page must not be changed while it is written out
+		// ATTENTION: caller must not have latch of the page
+		pg.RLatch()
+		data := pg.Data()
 		err := b.diskManager.WritePage(pageID, data[:])
-		if err != nil {
-			return false
-		}
+		pg.RUnlatch()
 		pg.SetIsDirty(false)
-		return true''', ['C13-R6 [FlushPage:dirty-cleared-before-write]'])
+""", ['C13-R6 [FlushPage:dirty-cleared-before-write]', 'C13-R6 [FlushPage:no-clear-after-write]'])
 m('disk-offset-32bit-product', ['C13'], 'lib/storage/disk/disk_manager_impl.go', '''	offset := int64(pageID) * int64(common.PageSize)
 	_, errSeek := d.db.Seek(offset, io.SeekStart)''', '''	offset := int64(pageID * common.PageSize)
 	_, errSeek := d.db.Seek(offset, io.SeekStart)''', ['C13-R7 [offset-64bit:(*storage/disk.DiskManagerImpl).WritePage'])
@@ -524,6 +528,22 @@ m('hash-index-update-entry-unimplemented', ['C17', 'C07'], 'lib/storage/index/li
 	htidx.InsertEntry(newKey, newRID, transaction)
 """, """	panic("not implemented yet")
 """, ['C17-R1 [LinearProbeHashTableIndex.UpdateEntry:implemented]'])
+m('flushpage-without-page-latch', ['C19'], BPM, """		pg.RLatch()
+		data := pg.Data()
+		err := b.diskManager.WritePage(pageID, data[:])
+		pg.RUnlatch()
+""", """		data := pg.Data()
+		err := b.diskManager.WritePage(pageID, data[:])
+""", ['C19-R2 [BPM.FlushPage:page-bytes-under-latch-or-mutex]'])
+m('new-table-heap-flushes-under-its-write-latch', ['C19', 'C12'], TH, """	firstPage.RemoveWLatchRecord(int32(txn.txnID))
+	firstPage.WUnlatch()
+	bpm.FlushPage(p.GetPageID())
+	bpm.UnpinPage(p.GetPageID(), true)
+""", """	bpm.FlushPage(p.GetPageID())
+	bpm.UnpinPage(p.GetPageID(), true)
+	firstPage.RemoveWLatchRecord(int32(txn.txnID))
+	firstPage.WUnlatch()
+""", ['C19-R4 [storage/access.NewTableHeap:no-page-latch-held-at-flush]'])
 # drop the one that needs a helper that does not exist
 M = [x for x in M if x['id'] != 'insert-executor-unlocks-early']
 os.chdir(os.path.dirname(os.path.abspath(__file__)) + '/..')
